@@ -19,6 +19,7 @@ type SpecEnv struct {
 	depth    int
 	macros   map[string]SExpr // contract-level `let` definitions, expanded where used
 	gh       map[string]Val   // ghost-state snapshot overriding st.gh (the entry environment used by old())
+	inOld    bool             // evaluating inside old(...)
 }
 
 type specFail struct{ msg string }
@@ -26,7 +27,7 @@ type specFail struct{ msg string }
 func sfail(format string, a ...any) { panic(specFail{fmt.Sprintf(format, a...)}) }
 
 func (e *SpecEnv) child() *SpecEnv {
-	n := &SpecEnv{names: map[string]Val{}, old: e.old, pkg: e.pkg, typeArgs: e.typeArgs, st: e.st, depth: e.depth, macros: e.macros, gh: e.gh}
+	n := &SpecEnv{names: map[string]Val{}, old: e.old, pkg: e.pkg, typeArgs: e.typeArgs, st: e.st, depth: e.depth, macros: e.macros, gh: e.gh, inOld: e.inOld}
 	for k, v := range e.names {
 		n.names[k] = v
 	}
@@ -172,7 +173,7 @@ func (f *Frame) specEval1(e SExpr, env *SpecEnv) Val {
 		return f.specEval(x.Body, ne)
 	case *SSel:
 		if id, ok := x.X.(*SIdent); ok {
-			if _, bound := env.names[id.Name]; !bound {
+			if _, bound := env.names[id.Name]; !bound && env.macros[id.Name] == nil {
 				if p := f.findImport(env.pkg, id.Name); p != nil && (env.pkg == nil || env.pkg.Scope().Lookup(id.Name) == nil) {
 					return f.specPkgObj(p, x.Name, env)
 				}
@@ -477,12 +478,16 @@ func (f *Frame) specCall(x *SCall, env *SpecEnv) Val {
 	if isId {
 		switch id.Name {
 		case "old":
+			if env.inOld {
+				return f.specEval(x.Args[0], env) // old(old(e)) == old(e): e.g. a `let` using old() expanded inside old()
+			}
 			if env.old == nil {
 				sfail("old() outside a postcondition")
 			}
 			oe := env.old.child()
 			oe.st = env.st
 			oe.macros = env.macros
+			oe.inOld = true
 			// quantifier-bound variables and lets stay visible inside old()
 			for k, v := range env.names {
 				if _, ok := oe.names[k]; !ok {
@@ -570,6 +575,15 @@ func (f *Frame) specCall(x *SCall, env *SpecEnv) Val {
 				sfail("bigval() used where no big-int heap is in scope")
 			}
 			return Val{T: fmt.Sprintf("(select %s %s)", heap, v.T)}
+		case "bitor", "bitand", "bitxor":
+			// 64-bit bitwise operators: the same uninterpreted functions the code's |, &, ^ map to on
+			// non-constant operands (so a clause `r == bitor(a, b)` pins operator and operands, while
+			// the bit-level meaning of the operator itself is Go's)
+			a := f.specEval(x.Args[0], env)
+			b := f.specEval(x.Args[1], env)
+			nm := map[string]string{"bitor": "bit_or64", "bitand": "bit_and64", "bitxor": "bit_xor64"}[id.Name]
+			fn := f.c.uf(nm, []string{"Int", "Int"}, "Int")
+			return Val{T: fmt.Sprintf("(%s %s %s)", fn, a.T, b.T)}
 		case "bigfresh":
 			// bigfresh(x): x was allocated during this call (not live at entry)
 			v := f.specEval(x.Args[0], env)
